@@ -442,6 +442,53 @@ fn sub_scripts(input: &[u8], st: &mut Stats) -> R {
     check_script(&s, st)
 }
 
+/// scripts with extreme request sizes (words(n) with n up to usize::MAX) and medium buffers
+/// (hundreds to thousands of bytes, strings hundreds of words long)
+fn sub_wide(input: &[u8], st: &mut Stats) -> R {
+    let mut cs = Cs::new(input);
+    let mut s = gen_script(&mut cs);
+    if cs.bool() {
+        let len = match cs.below(4) {
+            0 => 100 + cs.below(400),
+            1 => 1000 + cs.below(3000),
+            2 => [1023usize, 1024, 1025, 4095, 4096, 4097, 8191, 8192][cs.below(8)],
+            _ => 4000 + cs.below(5000),
+        };
+        let mut buf: Vec<u8> = (0..len).map(|i| b'a' + (i % 23) as u8).collect();
+        let nuls = cs.below(4);
+        for _ in 0..nuls {
+            let at = cs.below(len);
+            buf[at] = 0;
+        }
+        if cs.below(4) == 0 {
+            let at = cs.below(len);
+            buf[at] = 0xff; // invalid UTF-8 somewhere
+        }
+        s.buf = buf;
+        st.count("medium_buffers");
+    }
+    const HUGE: [usize; 9] = [usize::MAX, usize::MAX - 1, usize::MAX / 2 + 1, usize::MAX / 4 + 1, usize::MAX / 4, 1 << 62, (1 << 62) - 1, 1 << 32, u32::MAX as usize];
+    let words_left = s.buf.len() / 4;
+    for r in s.reqs.iter_mut() {
+        match r {
+            Req::Words(n) if cs.below(3) == 0 => {
+                *n = match cs.below(3) {
+                    0 => HUGE[cs.below(HUGE.len())],
+                    1 => words_left + cs.below(3),
+                    _ => words_left.saturating_sub(cs.below(3)),
+                };
+                st.count("extreme_words_requests");
+            }
+            Req::Word if cs.below(6) == 0 => {
+                *r = Req::Words(HUGE[cs.below(HUGE.len())]);
+                st.count("extreme_words_requests");
+            }
+            _ => {}
+        }
+    }
+    check_script(&s, st)
+}
+
 /// Hand-minimised inputs kept as plain regression checks.
 fn sub_fixed(input: &[u8], st: &mut Stats) -> R {
     let k = idx(input);
@@ -462,12 +509,14 @@ fn sub_fixed(input: &[u8], st: &mut Stats) -> R {
 pub const SUBS: &[Sub] = &[
     Sub { name: "fixed", f: sub_fixed },
     Sub { name: "scripts", f: sub_scripts },
+    Sub { name: "wide-scripts", f: sub_wide },
 ];
 
 pub fn run(ctx: &Ctx) {
     run_regress(ctx, SUBS);
     drive_enum(ctx, &SUBS[0], 8);
     drive_random(ctx, &SUBS[1], ctx.n(200_000, 100_000_000), 300);
+    drive_random(ctx, &SUBS[2], ctx.n(20_000, 10_000_000), 400);
     if !ctx.quick() && !ctx.failed() {
         crate::fuzzing::drive_fuzz(ctx, "decoder", 1_000_000);
     }
@@ -477,7 +526,7 @@ pub fn finish(ctx: &Ctx) -> i32 {
     crate::engine::finish(
         ctx,
         Finish {
-            rule: "cases: a byte buffer of length 0-64 (any length, NULs, invalid UTF-8) and a script of 1-30 requests over word/words(n)/bit32/bit64/id/ext_inst_integer/string/each of the 56 typed requests/set_limit (0,1,2,remaining±1,2^20,usize::MAX/4,usize::MAX)/clear_limit, with offset/has_limit/limit_reached queried after every step. Oracle: model R5 (offset, allowance) over the buffer: success required when buffer and limit allow, returned value = little-endian words / string up to first NUL / declared enumeration value, offset advanced 4 bytes per word and never beyond the buffer, failed raw word leaves and reports the offset, allowance never exceeded. non-trivial = script with a set_limit, a string request and a request straddling a limit or the buffer end; distinct = hash of the rendered script.",
+            rule: "cases: a byte buffer of length 0-64 (in `wide-scripts` also 100-9000 bytes with 0-3 NULs, and words(n) with n up to usize::MAX) (any length, NULs, invalid UTF-8) and a script of 1-30 requests over word/words(n)/bit32/bit64/id/ext_inst_integer/string/each of the 56 typed requests/set_limit (0,1,2,remaining±1,2^20,usize::MAX/4,usize::MAX)/clear_limit, with offset/has_limit/limit_reached queried after every step. Oracle: model R5 (offset, allowance) over the buffer: success required when buffer and limit allow, returned value = little-endian words / string up to first NUL / declared enumeration value, offset advanced 4 bytes per word and never beyond the buffer, failed raw word leaves and reports the offset, allowance never exceeded. non-trivial = script with a set_limit, a string request and a request straddling a limit or the buffer end; distinct = hash of the rendered script.",
             assumptions: vec![
                 "left open by the statement and re-synchronised from the implementation: offset and remaining allowance after a failed multi-word/typed/string request; which error a typed request reports at an exhausted limit".into(),
             ],
